@@ -238,6 +238,29 @@ Section Data.
   Definition stream_chunks (msg : ssmsg) (did : N) (blocks : list D) : list chunk :=
     stream_chunks_from msg did 0 blocks.
 
+  (* rsm.BlockWriter under rsm.ChunkWriter: the payload is cut into blocks of bs bytes (the
+     last one may be shorter; no block at all for an empty payload; a payload of exactly
+     k*bs bytes gives k full blocks), every block is followed by its checksum [crc b], chunk
+     0 additionally starts with the 1 KB header, and after the last block comes the tail
+     (total length of blocks+checksums, magic) as a chunk of its own *)
+  Definition block_count (bs n : N) : N := (n + bs - 1) / bs.
+  Definition block_ranges (bs n : N) : list (N * N) :=
+    map (fun i => (i * bs, if i =? block_count bs n - 1 then n - i * bs else bs))
+        (nseq (block_count bs n)).
+  Definition stream_blocks (crc : D -> D) (bs : N) (payload : D) : list D :=
+    map (fun r => let b := dsub payload (fst r) (snd r) in dapp b (crc b))
+        (block_ranges bs (dlen payload)).
+  Definition stream_datas (crc : D -> D) (hdr : D) (tail : N -> D) (bs : N) (payload : D) : list D :=
+    let bl := stream_blocks crc bs payload in
+    let total := fold_right (fun b acc => dlen b + acc) 0 bl in
+    match bl ++ [tail total] with
+    | d :: r => dapp hdr d :: r
+    | [] => []
+    end.
+  Definition stream_snapshot (crc : D -> D) (hdr : D) (tail : N -> D) (bs : N)
+             (msg : ssmsg) (did : N) (payload : D) : list chunk :=
+    stream_chunks msg did (stream_datas crc hdr tail bs payload).
+
   (* ---------- receiver ---------- *)
   Variable V : Type.
   Inductive vres := VOk (v : V) | VBad (v : V) | VPanic.
